@@ -33,9 +33,10 @@ fields(
         "MHLChain.file_path": "str",
         "MHLChain.generations": "list[MHLChainGeneration]",
         "MHLChainGeneration.generation_number": "int",
-        "MHLChainGeneration.ascmhl_filename": "str?",
-        "MHLChainGeneration.hash_format": "str?",
-        "MHLChainGeneration.hash_string": "str?",
+        # (the reader leaves these None for a <hashlist> without path / digest; tool-written chain files always have both)
+        "MHLChainGeneration.ascmhl_filename": "str",
+        "MHLChainGeneration.hash_format": "str",
+        "MHLChainGeneration.hash_string": "str",
         # hashlist.py
         "MHLHashList.creator_info": "MHLCreatorInfo?",
         "MHLHashList.process_info": "MHLProcessInfo",
